@@ -76,3 +76,18 @@ theorem Sat.throw {α : Type} {e : Err} {Q : α → Prop} : Sat (throw e : Excep
   Sat.error
 
 end Search
+
+namespace Search
+variable {M : Type}
+
+/-- a completed iteration ends with `go` or `done`, in both cases with the same new loop state `iterAcc` and the
+same engine state -/
+theorem iterDone_cases (cfg : Cfg) (base i : Int) (a : ALoop M) (next : List M) (nv : Int) (s : Eng M) :
+    iterDone cfg base i a next nv s = .go (iterAcc i a next nv s) s ∨
+    iterDone cfg base i a next nv s = .done (iterAcc i a next nv s) s := by
+  unfold iterDone
+  dsimp only
+  repeat' split
+  all_goals first | exact Or.inl rfl | exact Or.inr rfl
+
+end Search
